@@ -155,6 +155,14 @@ pub fn na() -> Spec {
             d("MEASure:NAMe?", &[], R::HStr, false),
             d("MEASure:ERRor?", &[], R::Err, false),
             d("PAY:BTEN", &[Bytes, Bytes, Bytes, Bytes, Bytes, Bytes, Bytes, Bytes, Bytes, Bytes], R::None, false),
+            // runs of parameters of one type (signature shapes a dispatcher could be tempted to treat
+            // as a list)
+            d("SYSTem:WINDow", &[U32, U32, U32, U32], R::None, false),
+            d("SYSTem:GAINs", &[F64, F64, F64, F64, F64], R::None, true),
+            d("SYSTem:FLAGs", &[Bool, Bool, Bool, Bool], R::None, false),
+            d("SYSTem:BYTes", &[U8, U8, U8, U8, U8, U8, U8, U8, U8, U8], R::None, false),
+            d("SYSTem:SUM?", &[I16, I16, I16, I16], R::Int(I64), false),
+            d("SYSTem:NAMes", &[Str, Str, Str, Str], R::None, false),
         ],
     }
 }
